@@ -200,4 +200,206 @@ Proof.
       * intros s. specialize (S3 s). unfold tot. cbn [a_cur a_migs]. lia.
 Qed.
 
+Lemma scale_out_loop_ok : forall fuel idx part rl acc rl' acc',
+  scale_out_loop fuel epoch avg rem smn dmn scn idx part rl acc = Done (rl', acc') ->
+  Forall wf_range rl -> Forall wf_range (a_cur acc) -> Forall wf_range (mig_ranges (a_migs acc)) ->
+  (forall l m, In (l, m) (a_migs acc) -> l <> []) ->
+  (forall s, (tot s rl acc <= 1)%nat) ->
+  a_num acc < dst_final (a_dst acc) ->
+  (a_cur acc = [] \/ (a_dst acc <> dmn /\ exists n, slots_num rl = Some n /\ src_final idx part < n)) ->
+  Forall wf_range rl' /\ Forall wf_range (mig_ranges (a_migs acc')) /\ (forall l m, In (l, m) (a_migs acc') -> l <> []) /\
+  (forall s, tot s rl' acc' = tot s rl acc) /\ a_cur acc' = [] /\ a_num acc' < dst_final (a_dst acc').
+Proof.
+  intros fuel idx part rl acc rl' acc' H H1 H2 H3 H4 H5 H6 H7.
+  apply (loop_spec_all fuel idx part rl acc rl' acc' H). unfold loop_pre. auto 10.
+Qed.
+
+(* ---------- outer loops ---------- *)
+(* the local closure do_part of scale_out_chunks *)
+Definition do_part (idx : nat) (part : bool) (c : chunk) (acc : macc) : outcome (chunk * macc) :=
+  match ck_stable c part with
+  | None => Done (c, acc)
+  | Some rl =>
+    match scale_out_loop (loop_fuel rl dmn) epoch avg rem smn dmn scn idx part rl acc with
+    | Done (rl', acc') => Done (set_stable c part (Some rl'), acc')
+    | Fail e => Fail e
+    | Panic => Panic
+    end
+  end.
+
+Lemma scale_out_chunks_cons idx c rest acc :
+  scale_out_chunks epoch avg rem smn dmn scn idx (c :: rest) acc =
+  match do_part idx false c acc with
+  | Done (c1, acc1) =>
+    match do_part idx true c1 acc1 with
+    | Done (c2, acc2) =>
+      match scale_out_chunks epoch avg rem smn dmn scn (S idx) rest acc2 with
+      | Done (rest', acc3) => Done (c2 :: rest', acc3)
+      | Fail e => Fail e
+      | Panic => Panic
+      end
+    | Fail e => Fail e
+    | Panic => Panic
+    end
+  | Fail e => Fail e
+  | Panic => Panic
+  end.
+Proof. reflexivity. Qed.
+
+(* replacing one stable list of a chunk: the other one is a frame *)
+Lemma chunk_stable_set c part rl rl' : ck_stable c part = Some rl ->
+  exists other,
+    (forall s, cnt s (chunk_stable c) = (cnt s rl + cnt s other)%nat) /\
+    (forall s, cnt s (chunk_stable (set_stable c part (Some rl'))) = (cnt s rl' + cnt s other)%nat) /\
+    (Forall wf_range (chunk_stable c) -> Forall wf_range rl /\ Forall wf_range other) /\
+    (Forall wf_range rl' -> Forall wf_range other -> Forall wf_range (chunk_stable (set_stable c part (Some rl')))).
+Proof.
+  destruct part; cbn [ck_stable]; intros E.
+  - exists (opt_ranges (ck_stable0 c)). unfold chunk_stable. cbn [set_stable ck_stable0 ck_stable1]. rewrite E. cbn [opt_ranges].
+    split; [intros s; rewrite cnt_app; lia|]. split; [intros s; rewrite cnt_app; lia|].
+    split; [intros H; apply Forall_app in H; tauto|]. intros H1 H2. apply Forall_app. tauto.
+  - exists (opt_ranges (ck_stable1 c)). unfold chunk_stable. cbn [set_stable ck_stable0 ck_stable1]. rewrite E. cbn [opt_ranges].
+    split; [intros s; rewrite cnt_app; lia|]. split; [intros s; rewrite cnt_app; lia|].
+    split; [intros H; apply Forall_app in H; tauto|]. intros H1 H2. apply Forall_app. tauto.
+Qed.
+
+Definition part_post (c : chunk) (acc : macc) (c' : chunk) (acc' : macc) : Prop :=
+  ck_mig0 c' = ck_mig0 c /\ ck_mig1 c' = ck_mig1 c /\
+  Forall wf_range (chunk_stable c') /\ Forall wf_range (mig_ranges (a_migs acc')) /\
+  (forall l m, In (l, m) (a_migs acc') -> l <> []) /\ a_cur acc' = [] /\
+  (forall s, (cnt s (chunk_stable c') + cnt s (mig_ranges (a_migs acc')))%nat =
+             (cnt s (chunk_stable c) + cnt s (mig_ranges (a_migs acc)))%nat) /\
+  a_num acc' < dst_final (a_dst acc').
+
+Lemma do_part_ok idx part c acc c' acc' :
+  do_part idx part c acc = Done (c', acc') ->
+  Forall wf_range (chunk_stable c) -> Forall wf_range (mig_ranges (a_migs acc)) ->
+  (forall l m, In (l, m) (a_migs acc) -> l <> []) -> a_cur acc = [] ->
+  (forall s, (cnt s (chunk_stable c) + cnt s (mig_ranges (a_migs acc)) <= 1)%nat) ->
+  a_num acc < dst_final (a_dst acc) ->
+  part_post c acc c' acc'.
+Proof.
+  intros H Hwc Hwm Hne Hcur Htot Hnum. unfold do_part in H.
+  destruct (ck_stable c part) as [rl|] eqn:Est.
+  - destruct (scale_out_loop (loop_fuel rl dmn) epoch avg rem smn dmn scn idx part rl acc) as [[rl' acc1]| |] eqn:El;
+      try discriminate.
+    inversion H; subst c' acc1. clear H.
+    destruct (chunk_stable_set c part rl rl' Est) as (other & C1 & C2 & W1 & W2).
+    destruct (W1 Hwc) as [Hwrl Hwo].
+    destruct (scale_out_loop_ok _ _ _ _ _ _ _ El) as (P1 & P2 & P3 & P4 & P5 & P6); try assumption.
+    + rewrite Hcur. constructor.
+    + intros s. unfold tot. rewrite Hcur, cnt_nil. specialize (Htot s). rewrite C1 in Htot. lia.
+    + left. assumption.
+    + unfold part_post. rewrite set_stable_mig0, set_stable_mig1.
+      split; [reflexivity|]. split; [reflexivity|]. split; [apply W2; assumption|]. split; [assumption|].
+      split; [assumption|]. split; [assumption|]. split; [|assumption].
+      intros s. specialize (P4 s). unfold tot in P4. rewrite P5, Hcur, !cnt_nil in P4. rewrite C1, C2. lia.
+  - inversion H; subst. unfold part_post. auto 10.
+Qed.
+
+Lemma part_post_trans c acc c1 acc1 c2 acc2 :
+  part_post c acc c1 acc1 -> part_post c1 acc1 c2 acc2 -> part_post c acc c2 acc2.
+Proof.
+  intros (A1 & A2 & A3 & A4 & A5 & A6 & A7 & A8) (B1 & B2 & B3 & B4 & B5 & B6 & B7 & B8). unfold part_post.
+  split; [congruence|]. split; [congruence|]. repeat (split; [assumption|]). split; [|assumption].
+  intros s. rewrite B7. apply A7.
+Qed.
+
+Lemma stable_ranges_cons c rest : stable_ranges (c :: rest) = chunk_stable c ++ stable_ranges rest.
+Proof. reflexivity. Qed.
+
+Lemma scale_out_chunks_ok : forall chunks idx acc chunks' acc',
+  scale_out_chunks epoch avg rem smn dmn scn idx chunks acc = Done (chunks', acc') ->
+  no_migs chunks -> Forall wf_range (stable_ranges chunks) -> Forall wf_range (mig_ranges (a_migs acc)) ->
+  (forall l m, In (l, m) (a_migs acc) -> l <> []) -> a_cur acc = [] ->
+  (forall s, (cnt s (stable_ranges chunks) + cnt s (mig_ranges (a_migs acc)) <= 1)%nat) ->
+  a_num acc < dst_final (a_dst acc) ->
+  length chunks' = length chunks /\ no_migs chunks' /\ Forall wf_range (stable_ranges chunks') /\
+  Forall wf_range (mig_ranges (a_migs acc')) /\ (forall l m, In (l, m) (a_migs acc') -> l <> []) /\ a_cur acc' = [] /\
+  (forall s, (cnt s (stable_ranges chunks') + cnt s (mig_ranges (a_migs acc')))%nat = (cnt s (stable_ranges chunks) + cnt s (mig_ranges (a_migs acc)))%nat) /\
+  a_num acc' < dst_final (a_dst acc').
+Proof.
+  induction chunks as [|c rest IH]; intros idx acc chunks' acc' H Hnm Hws Hwm Hne Hcur Htot Hnum.
+  - cbn [scale_out_chunks] in H. inversion H; subst. auto 10.
+  - rewrite scale_out_chunks_cons in H.
+    destruct (do_part idx false c acc) as [[c1 acc1]| |] eqn:E1; try discriminate.
+    destruct (do_part idx true c1 acc1) as [[c2 acc2]| |] eqn:E2; try discriminate.
+    destruct (scale_out_chunks epoch avg rem smn dmn scn (S idx) rest acc2) as [[rest' acc3]| |] eqn:E3; try discriminate.
+    inversion H; subst chunks' acc3. clear H.
+    apply no_migs_cons in Hnm. destruct Hnm as [[Hm0 Hm1] Hnr].
+    rewrite stable_ranges_cons in Hws. apply Forall_app in Hws. destruct Hws as [Hwc Hwr].
+    assert (Htc : forall s, (cnt s (chunk_stable c) + cnt s (mig_ranges (a_migs acc)) <= 1)%nat).
+    { intros s. specialize (Htot s). rewrite stable_ranges_cons, cnt_app in Htot. lia. }
+    pose proof (do_part_ok idx false c acc c1 acc1 E1 Hwc Hwm Hne Hcur Htc Hnum) as Q1.
+    pose proof Q1 as (A1 & A2 & A3 & A4 & A5 & A6 & A7 & A8).
+    assert (Htc1 : forall s, (cnt s (chunk_stable c1) + cnt s (mig_ranges (a_migs acc1)) <= 1)%nat).
+    { intros s. rewrite A7. apply Htc. }
+    pose proof (do_part_ok idx true c1 acc1 c2 acc2 E2 A3 A4 A5 A6 Htc1 A8) as Q2.
+    pose proof (part_post_trans _ _ _ _ _ _ Q1 Q2) as (B1 & B2 & B3 & B4 & B5 & B6 & B7 & B8).
+    destruct (IH (S idx) acc2 rest' acc' E3 Hnr Hwr B4 B5 B6) as (R1 & R2 & R3 & R4 & R5 & R6 & R7 & R8).
+    { intros s. specialize (Htot s). specialize (B7 s). rewrite stable_ranges_cons, cnt_app in Htot. lia. }
+    { exact B8. }
+    split; [cbn [length]; congruence|].
+    split; [apply no_migs_cons; split; [split; congruence|assumption]|].
+    split; [rewrite stable_ranges_cons; apply Forall_app; split; assumption|].
+    split; [assumption|]. split; [assumption|]. split; [assumption|]. split; [|assumption].
+    intros s. specialize (R7 s). specialize (B7 s). rewrite !stable_ranges_cons, !cnt_app. lia.
+Qed.
+
 End ScaleOut.
+
+(* ---------- top level ---------- *)
+Lemma mig_ranges_rev_perm migs : Permutation (mig_ranges (rev migs)) (mig_ranges migs).
+Proof. unfold mig_ranges. apply Permutation_flat_map. apply Permutation_sym, Permutation_rev. Qed.
+
+Lemma average_pos len : (0 < len)%nat -> 2 * N.of_nat len <= SLOT_NUM -> 1 <= SLOT_NUM / (2 * N.of_nat len).
+Proof. intros Hl Hs. apply N.div_le_lower_bound; lia. Qed.
+
+Lemma slot_ind_zero : slot_ind 0 = 1%nat.
+Proof. reflexivity. Qed.
+
+Lemma slot_ind_le1 s : (slot_ind s <= 1)%nat.
+Proof. unfold slot_ind. destruct (N.ltb s SLOT_NUM); lia. Qed.
+
+Lemma remove_src_ok : forall cl epoch chunks migs,
+  part_inv (cl_chunks cl) -> cluster_is_migrating cl = false ->
+  remove_slots_from_src cl epoch = Done (chunks, migs) -> remove_ok chunks migs.
+Proof.
+  intros cl epoch chunks migs Hinv Hmig H.
+  pose proof (not_migrating_no_migs cl Hmig) as Hnm.
+  destruct (part_inv_stable _ Hinv Hnm) as [Hws Hcov].
+  pose proof (pi_size _ Hinv) as Hsz.
+  assert (Hlen : (0 < length (cl_chunks cl))%nat).
+  { destruct (length (cl_chunks cl)) eqn:El; [|lia]. exfalso.
+    apply length_zero_iff_nil in El. specialize (Hcov 0). rewrite El, slot_ind_zero in Hcov.
+    cbn [stable_ranges flat_map] in Hcov. rewrite cnt_nil in Hcov. discriminate. }
+  pose proof (average_pos _ Hlen Hsz) as Havg.
+  unfold remove_slots_from_src in H. cbv zeta in H.
+  destruct (scale_out_chunks _ _ _ _ _ _ _ _ _) as [[ch acc]| |] eqn:E; try discriminate.
+  inversion H; subst chunks migs. clear H.
+  destruct (scale_out_chunks_ok _ _ _ _ _ _ Havg _ _ _ _ _ E Hnm Hws) as (R1 & R2 & R3 & R4 & R5 & R6 & R7 & R8).
+  - cbn [a_migs mig_ranges flat_map]. constructor.
+  - cbn [a_migs]. intros l m [].
+  - reflexivity.
+  - intros s. cbn [a_migs mig_ranges flat_map]. rewrite cnt_nil, Hcov. pose proof (slot_ind_le1 s). lia.
+  - cbn [a_num a_dst]. eapply N.lt_le_trans; [|apply dst_final_pos; exact Havg]. lia.
+  - constructor.
+    + rewrite R1. exact Hsz.
+    + exact R2.
+    + exact R3.
+    + eapply Permutation_Forall; [apply Permutation_sym, mig_ranges_rev_perm|exact R4].
+    + intros rl m Hin. apply in_rev in Hin. eauto.
+    + intros s. rewrite (cnt_perm s _ _ (mig_ranges_rev_perm (a_migs acc))), R7.
+      cbn [a_migs mig_ranges flat_map]. rewrite cnt_nil, Hcov. lia.
+Qed.
+
+(* the Done hypothesis of remove_src_ok is satisfiable with a non-trivial plan: one source chunk holding all slots
+   (the second stable list in two uncompacted ranges), two empty destination chunks -> five pending migrations,
+   three of them produced by splitting a range *)
+Example remove_src_ok_witness :
+  let ck a b := mkChunk RNormal a b [] [] 1 2 1 2 1 2 3 4 in
+  let cl := mkCluster 1 [ck (Some [(0, 8191)]) (Some [(8192, 9000); (9001, 16383)]); ck None None; ck None None] 0 in
+  cluster_is_migrating cl = false /\
+  exists chunks migs, remove_slots_from_src cl 7 = Done (chunks, migs) /\ length migs = 5%nat /\
+    map fst migs = [[(5461, 8191)]; [(2731, 5460)]; [(16383, 16383)]; [(13653, 16382)]; [(10923, 13652)]].
+Proof. cbv zeta. split; [reflexivity|]. eexists. eexists. split; [vm_compute; reflexivity|]. split; reflexivity. Qed.
